@@ -36,6 +36,11 @@ WITNESS_TESTS = {
     "file": "witness/c02_dealer_send_too_many_frames.rs", "props": ["C02"], "pairs_fn": ["DealerSocket::send"],
     "what": "DEALER handed 300 MORE frames frame by frame: refused with an error, no panic, socket usable afterwards",
   },
+  "c02_frame_capacity_boundaries": {
+    "file": "witness/c02_frame_capacity_boundaries.rs", "props": ["C02", "C07"],
+    "pairs_fn": ["Socket::send_multipart", "RouterSocket::with_room_for_identity", "RouterSocket::transform_qitem_to_app_frames", "dealer_send_multipart_admission", "DealerSocket::prepare_full_multipart_send_sequence", "rep_assemble_reply", "send_take_request"],
+    "what": "messages at / beyond the 255-frame capacity through Socket::send_multipart (256), DEALER and ROUTER send (255 + delimiter), a REP reply (255 + envelope) and a ROUTER receiving 255 frames: error, never a panic",
+  },
   "c11_router_takeover_then_old_detach": {
     "file": "witness/c11_router_takeover_then_old_detach.rs", "props": ["C11"], "pairs_fn": ["RouterMap::remove_peer_by_read_pipe", "RouterMap::update_peer_identity", "RouterMap::add_peer"],
     "what": "DEALER reconnects with the same routing id while the ROUTER still holds the old connection; after the old connection is detached the identity still routes to the live one",
@@ -125,7 +130,7 @@ ENGINE_TRUSTED = COMMON_TRUSTED + [
 ]
 
 PROPS["C02"] = {
-  "units": ["framebatch", "engine", "anon", "dealersend"],
+  "units": ["framebatch", "engine", "anon", "dealersend", "flags", "reqrep"],
   "kani_quick": [], "kani_thorough": [],
   "claim": "Receiver side, proved unbounded on the verbatim code: ZmtpEngine::process_data delivers only complete messages (MORE on all but the last frame), and delivered frames + the message in progress equal, in order, "
            "the data frames the framer returned (nothing dropped, duplicated, reordered or merged across calls); a message of more than 255 frames closes the connection with PeerError instead of panicking and nothing truncated is delivered. "
@@ -133,9 +138,12 @@ PROPS["C02"] = {
            "Application side (PULL/SUB, unit anon): with stream = unread frames of the message in progress ++ the frames of the batches the queue hands out, recv() returns exactly the next frame of the stream, recv_multipart() the rest of a message begun frame by frame "
            "or the next message whole, a failed call loses nothing, and a peer detaching (deregister_pipe) leaves the unread frames untouched. "
            "Sender side (DEALER frame-by-frame send, unit dealersend): frames sent with MORE are buffered in order, the final frame hands on exactly the buffered frames plus itself and closes the transaction, "
-           "and every FrameBatch::push is within the container's capacity (a message with too many frames is refused with an error, never a panic).",
+           "and every FrameBatch::push is within the container's capacity (a message with too many frames is refused with an error, never a panic). "
+           "Sender-side MORE normalisation (unit flags; the iter_mut().enumerate() loops desugared by R9e): PUSH / PUB send_multipart, DEALER prepare_full_multipart_send_sequence (manual and automatic framing) and the REP reply assembly put on the wire "
+           "exactly the application's frames in order, payload untouched, MORE on all but the last; Socket::send_multipart refuses more than 255 frames with an error; DEALER / REP admission checks guarantee the capacity preconditions of the delimiter / envelope; "
+           "ROUTER prepends exactly one identity frame to a received message and refuses (ProtocolViolation) a message that leaves no room for it.",
   "level_note": "Unit anon uses the sequential lock model for the frame cache (one task receives at a time) and an abstract ReadyPipeQueue (its pop order is a ghost sequence; cancel safety of pop() assumed); queued batches are assumed to be whole messages "
-                "(proved for tcp/ipc by the engine contract, assumed for inproc). DEALER/ROUTER frame_recv_buffer, socket-level interleaving with other peers and the sender-side MORE normalisation loops (iter_mut().enumerate(): outside Verus) are not covered. "
+                "(proved for tcp/ipc by the engine contract, assumed for inproc). DEALER/ROUTER frame_recv_buffer, ROUTER's frame-by-frame send state (current_send_target) and its send-side strategies, and socket-level interleaving with other peers are not covered. "
                 "FrameBatch::from(Vec) / with_capacity beyond 255 panic by design of the public API: derived preconditions, see DESIGN.md findings.",
   "technique": "contract-based deductive verification (Verus; engine invariant + ghost read log of the abstract framer; data-structure view for FrameBatch)",
   "trusted_base": ENGINE_TRUSTED + ["prelude/vecu8.rs: assumed contract of xs_foundation VecU8 (panic conditions as preconditions)"],
@@ -199,7 +207,7 @@ PROPS["C06"]["claim"] += (" For PLAIN the mechanism side of that contract is pro
                           "(no configured credentials => every HELLO is rejected), an error is terminal, Ready on the server is reachable only from ServerSendWelcome.")
 PROPS["C06"]["level_note"] = ("Relative to the abstract Mechanism contract for CURVE/Noise (cryptography: not applicable) and to negotiate_security_mechanism's contract (assumed). "
                               "When the Verus route cannot decide after an edit (rewrite anchor lost / construct outside the subset), the bounded Kani harness on the real PLAIN mechanism runs as fallback (bounded, never counted as proved).")
-PROPS["C07"]["units"] = ["dec", "framer", "engine", "framebatch", "command", "plain", "greeting", "codec"]
+PROPS["C07"]["units"] = ["dec", "framer", "engine", "framebatch", "command", "plain", "greeting", "codec", "flags"]
 PROPS["C03"]["units"] = ["dec", "enc", "framer", "c03lem", "codec"]
 PROPS["C04"]["units"] = ["engine", "framer", "c03lem", "dec", "codec"]
 
@@ -244,7 +252,7 @@ PROPS["C05"] = {
 }
 
 PROPS["C11"] = {
-  "units": ["framing", "routerrecv", "routermap"],
+  "units": ["framing", "routerrecv", "routermap", "flags"],
   "kani_quick": [], "kani_thorough": [],
   "claim": "Envelope handling only, proved for every message shape (any number of frames up to the container limit, empty frames anywhere): ROUTER's automatic delimiter is inserted right after the identity and removed from exactly that slot, "
            "DEALER's is prepended and stripped, the payload frames after it are unchanged frame for frame (decode after encode restores the payload); REP's extract_routing_prefix splits at the first empty frame, loses and reorders nothing, "
@@ -264,7 +272,7 @@ PROPS["C11"] = {
 }
 
 PROPS["C14"] = {
-  "units": ["iface", "route", "egress", "batch", "anon", "routerrecv"],
+  "units": ["iface", "route", "egress", "batch", "anon", "routerrecv", "flags"],
   "kani_quick": [], "kani_thorough": [],
   "claim": "Error mapping only, proved on the verbatim async functions of the session-backed connection interface (ScaConnectionIface): with SNDTIMEO = 0 a full pipe yields would-block at once and the batch is handed back unchanged; "
            "with SNDTIMEO = -1 send_multipart_owned never answers would-block or timeout (untimed wait); errors are only would-block / timeout / connection-closed; try_send_multipart_owned_sync and try_route_sync hand a refused batch back intact; "
